@@ -166,23 +166,6 @@ func (fc *fsCtx) direntField(im *fsImpl) string {
 	return ""
 }
 
-// allocator: the helper that hands out fresh inode numbers: an int-returning
-// helper method with no parameters besides the receiver.
-func (fc *fsCtx) allocator(im *fsImpl) *ssa.Function {
-	var cands []*ssa.Function
-	for h := range im.Helpers {
-		if len(h.Params) == 1 && h.Signature.Results().Len() == 1 {
-			if b, ok := h.Signature.Results().At(0).Type().Underlying().(*types.Basic); ok && b.Kind() == types.Int {
-				cands = append(cands, h)
-			}
-		}
-	}
-	if len(cands) == 1 {
-		return cands[0]
-	}
-	return nil
-}
-
 // ---------------------------------------------------------------------------
 // C14
 
@@ -235,103 +218,6 @@ func (fc *fsCtx) allFuncsOf(im *fsImpl) []*ssa.Function {
 	}
 	sort.Slice(hs, func(i, j int) bool { return hs[i].Name() < hs[j].Name() })
 	return append(fs, hs...)
-}
-
-func (fc *fsCtx) ruleAllocator(r *Report, im *fsImpl) {
-	p := fc.p
-	cf := fc.contentField(im)
-	if cf == "" {
-		r.Unknown("R14b", im.Name+" contents map", im.Named.Obj().Pos(), "no map field with []byte values")
-		return
-	}
-	alloc := fc.allocator(im)
-	// (1) insert-only
-	nDel := 0
-	for _, f := range p.FuncsIn(fsPkg) {
-		p.instrs(f, func(b *ssa.BasicBlock, i int, in ssa.Instruction) {
-			if c, ok := in.(*ssa.Call); ok {
-				if bi, ok := c.Call.Value.(*ssa.Builtin); ok && (bi.Name() == "delete" || bi.Name() == "clear") {
-					if fld, ok := fc.mapFieldOf(im, c.Call.Args[0]); ok && fld == cf {
-						nDel++
-						r.Fail("R14b", fmt.Sprintf("%s.%s %s(%s)", im.Name, f.Name(), bi.Name(), cf), instrPos(in),
-							"an entry of the contents map is removed: len(map) shrinks, so the allocator hands out a number that is still in use (and a deleted file is no longer readable through open descriptors)", "")
-					}
-				}
-			}
-			if st, ok := in.(*ssa.Store); ok {
-				if o, fld, ok := fieldOf(st.Addr); ok && types.Identical(o, im.Named) && fld == cf {
-					_, fresh := st.Addr.(*ssa.FieldAddr).X.(*ssa.Alloc)
-					r.Check("R14b", fmt.Sprintf("%s.%s reassigns %s", im.Name, f.Name(), cf), instrPos(in), fc.ctors[f] && fresh,
-						"the contents map is replaced outside the constructor")
-				}
-			}
-		})
-	}
-	if nDel == 0 {
-		r.OK("R14b", im.Name+"."+cf+" insert-only", im.Named.Obj().Pos(), "no delete/clear of the contents map in the package")
-	}
-	// (2) allocator shape
-	if alloc == nil {
-		r.Unknown("R14b", im.Name+" allocator", im.Named.Obj().Pos(), "cannot identify the descriptor allocator (a parameterless int-returning helper method)")
-		return
-	}
-	r.Func(FuncName(alloc))
-	okShape, why := false, ""
-	for _, b := range alloc.Blocks {
-		for _, in := range b.Instrs {
-			ret, ok := in.(*ssa.Return)
-			if !ok {
-				continue
-			}
-			k := sk(ret.Results[0])
-			recv := alloc.Params[0].Name()
-			for c := 1; c < 4; c++ {
-				if k == fmt.Sprintf("(len(%s.%s) + %d)", recv, cf, c) {
-					okShape = true
-				}
-			}
-			why = "allocator returns " + k
-		}
-	}
-	if !okShape {
-		// counter idiom: a field incremented by a positive constant and returned
-		p.instrs(alloc, func(b *ssa.BasicBlock, i int, in ssa.Instruction) {
-			if st, ok := in.(*ssa.Store); ok {
-				if bo, ok := st.Val.(*ssa.BinOp); ok && bo.Op == token.ADD {
-					if c, ok := constInt(bo.Y); ok && c >= 1 && sk(bo.X) == sk(st.Addr) {
-						okShape = true
-					}
-				}
-			}
-		})
-	}
-	r.Check("R14b", im.Name+" allocator shape", alloc.Pos(), okShape, why+"; expected len("+cf+")+c (c>=1) with an insert-only map, or an incremented counter")
-	// (3) insertions use the allocator
-	for _, f := range fc.allFuncsOf(im) {
-		p.instrs(f, func(b *ssa.BasicBlock, i int, in ssa.Instruction) {
-			mu, ok := in.(*ssa.MapUpdate)
-			if !ok {
-				return
-			}
-			fld, ok := fc.mapFieldOf(im, mu.Map)
-			if !ok || fld != cf {
-				return
-			}
-			r.Sites++
-			fresh, existing := false, false
-			for _, o := range origins(mu.Key) {
-				if c, ok := o.(*ssa.Call); ok {
-					if cal := calleeOf(&c.Call); cal == alloc {
-						fresh = true
-					} else if cal != nil && im.Helpers[cal] {
-						existing = true // e.g. a descriptor validated by a helper: update of an existing file
-					}
-				}
-			}
-			r.Check("R14b", fmt.Sprintf("%s.%s insert into %s", im.Name, f.Name(), cf), instrPos(in), fresh || existing,
-				"key is "+sk(mu.Key)+": a new entry must be keyed by the allocator's result, an update by a descriptor validated by a helper")
-		})
-	}
 }
 
 func (fc *fsCtx) ruleDirShared(r *Report, dir *fsImpl) {
@@ -442,198 +328,6 @@ func checkC12(p *Prog, r *Report) {
 	}
 }
 
-func (fc *fsCtx) checkFsForwarder(r *Report, f *ssa.Function, mn string) {
-	key := "wrapper " + FuncName(f)
-	var calls []*ssa.Call
-	nret := 0
-	for _, b := range f.Blocks {
-		for _, in := range b.Instrs {
-			switch x := in.(type) {
-			case *ssa.Call:
-				calls = append(calls, x)
-			case *ssa.Return:
-				nret++
-			}
-		}
-	}
-	ok, why := true, ""
-	if len(f.Blocks) != 1 || len(calls) != 1 || nret != 1 {
-		ok, why = false, "not a single forwarding call"
-	} else {
-		c := &calls[0].Call
-		if !c.IsInvoke() || c.Method.Name() != mn {
-			ok, why = false, "does not invoke "+mn
-		} else if ld, isLoad := c.Value.(*ssa.UnOp); !isLoad {
-			ok, why = false, "receiver is not the global Fs"
-		} else if g, isG := ld.X.(*ssa.Global); !isG || g.Name() != "Fs" {
-			ok, why = false, "receiver is not the global Fs"
-		}
-		if ok && len(c.Args) == len(f.Params) {
-			for i, a := range c.Args {
-				if a != ssa.Value(f.Params[i]) {
-					ok, why = false, fmt.Sprintf("argument %d is not parameter %s", i, f.Params[i].Name())
-				}
-			}
-		} else if ok {
-			ok, why = false, "argument count"
-		}
-	}
-	r.Check("R12d", key, f.Pos(), ok, why)
-}
-
-func (fc *fsCtx) ruleReadAt(r *Report, mem, dir *fsImpl) {
-	p := fc.p
-	for _, im := range []*fsImpl{mem, dir} {
-		f := im.Methods["ReadAt"]
-		if f == nil {
-			r.Anchor("R12e", im.Name+".ReadAt")
-			continue
-		}
-		r.Func(FuncName(f))
-		// parameters: recv, f, offset, length
-		if len(f.Params) != 4 {
-			r.Unknown("R12e", im.Name+".ReadAt params", f.Pos(), "unexpected signature")
-			continue
-		}
-		offP, lenP := f.Params[2], f.Params[3]
-		rm := p.Rels(f)
-		nRet := 0
-		p.instrs(f, func(b *ssa.BasicBlock, i int, in ssa.Instruction) {
-			ret, ok := in.(*ssa.Return)
-			if !ok {
-				return
-			}
-			for _, o := range origins(ret.Results[0]) {
-				if c, ok := o.(*ssa.Const); ok && c.Value == nil {
-					// nil result: allowed only when offset >= len(contents) (nothing exists there)
-					continue
-				}
-			}
-			// find the Slice values reaching this return
-			var slices []*ssa.Slice
-			var walk func(v ssa.Value, seen map[ssa.Value]bool)
-			walk = func(v ssa.Value, seen map[ssa.Value]bool) {
-				if seen[v] {
-					return
-				}
-				seen[v] = true
-				switch x := v.(type) {
-				case *ssa.Slice:
-					slices = append(slices, x)
-				case *ssa.UnOp:
-					if a, ok := x.X.(*ssa.Alloc); ok {
-						for _, rf := range refs(a) {
-							if st, ok := rf.(*ssa.Store); ok && st.Addr == ssa.Value(a) {
-								walk(st.Val, seen)
-							}
-						}
-					}
-				case *ssa.Phi:
-					for _, e := range x.Edges {
-						walk(e, seen)
-					}
-				}
-			}
-			walk(ret.Results[0], map[ssa.Value]bool{})
-			for _, sl := range slices {
-				nRet++
-				ms, isMake := sl.X.(*ssa.MakeSlice)
-				okBuf := isMake && stripConv(ms.Len) == ssa.Value(lenP)
-				r.Check("R12e", im.Name+".ReadAt buffer is make(length)", instrPos(sl), okBuf, "result buffer is "+sk(sl.X)+", must be make([]byte, length)")
-				// High bound = count of copy/pread into that buffer
-				okN, src := false, ""
-				if sl.Low == nil && sl.High != nil {
-					switch h := sl.High.(type) {
-					case *ssa.Call: // copy
-						if bi, ok := h.Call.Value.(*ssa.Builtin); ok && bi.Name() == "copy" && h.Call.Args[0] == sl.X {
-							okN = true
-							src = sk(h.Call.Args[1])
-							// source must be contents[offset:]
-							if s2, ok := h.Call.Args[1].(*ssa.Slice); ok {
-								okSrc := s2.Low != nil && stripConv(s2.Low) == ssa.Value(offP) && s2.High == nil
-								r.Check("R12e", im.Name+".ReadAt source is contents[offset:]", instrPos(h), okSrc, "copy source is "+src)
-								// offset < len(contents) must hold (else the slice expression panics)
-								rs := p.RelsAt(rm, s2)
-								want := offP.Name() + " < uint64(len(" + sk(s2.X) + "))"
-								r.Check("R12e", im.Name+".ReadAt offset in range", instrPos(s2), rs[want], fmt.Sprintf("need fact `%s`; facts: %v", want, relList(rs)))
-							} else {
-								r.Fail("R12e", im.Name+".ReadAt source is contents[offset:]", instrPos(h), "copy source is "+src, "")
-							}
-						}
-					case *ssa.Extract: // pread count
-						if c, ok := h.Tuple.(*ssa.Call); ok {
-							if cal := calleeOf(&c.Call); cal != nil && fullName(cal) == "golang.org/x/sys/unix.Pread" && h.Index == 0 && c.Call.Args[1] == sl.X {
-								okN = true
-								okOff := stripConv(c.Call.Args[2]) == ssa.Value(offP)
-								r.Check("R12e", im.Name+".ReadAt pread offset", instrPos(c), okOff, "pread offset is "+sk(c.Call.Args[2])+", must be the offset parameter")
-							}
-						}
-					}
-				}
-				r.Check("R12e", im.Name+".ReadAt result is buf[:n]", instrPos(sl), okN, "result is "+sk(sl)+": must be buf[:n] with n the number of bytes copied/read into buf")
-			}
-		})
-		if nRet == 0 {
-			r.Unknown("R12e", im.Name+".ReadAt result", f.Pos(), "no sliced result recognised")
-		}
-	}
-}
-
-func (fc *fsCtx) ruleLinkDelete(r *Report, mem *fsImpl) {
-	p := fc.p
-	df := fc.direntField(mem)
-	if f := mem.Methods["Link"]; f != nil {
-		p.instrs(f, func(b *ssa.BasicBlock, i int, in ssa.Instruction) {
-			mu, ok := in.(*ssa.MapUpdate)
-			if !ok {
-				return
-			}
-			fld, _ := fc.mapFieldOf(mem, mu.Map)
-			if fld != df {
-				r.Fail("R12e", mem.Name+".Link updates "+fld, instrPos(in), "Link must only add a directory entry", "")
-				return
-			}
-			// value = lookup of the old name in the directory map
-			okv := false
-			for _, o := range origins(mu.Value) {
-				if ex, ok := o.(*ssa.Extract); ok {
-					if lk, ok := ex.Tuple.(*ssa.Lookup); ok {
-						if f2, ok := fc.mapFieldOf(mem, lk.X); ok && f2 == df {
-							d := paramDeps(lk.Index)
-							if d[f.Params[1].Name()] && d[f.Params[2].Name()] {
-								okv = true
-							}
-						}
-					}
-				}
-			}
-			kd := paramDeps(mu.Key)
-			okk := len(f.Params) >= 5 && kd[f.Params[3].Name()] && kd[f.Params[4].Name()]
-			r.Check("R12e", mem.Name+".Link shares the inode", instrPos(in), okv && okk, "the new entry must map (newDir,newName) to the inode number found under (oldDir,oldName)")
-		})
-	}
-	if f := mem.Methods["Delete"]; f != nil {
-		n := 0
-		p.instrs(f, func(b *ssa.BasicBlock, i int, in ssa.Instruction) {
-			switch x := in.(type) {
-			case *ssa.MapUpdate:
-				r.Fail("R12e", mem.Name+".Delete map update", instrPos(in), "Delete must not insert", "")
-			case *ssa.Call:
-				if bi, ok := x.Call.Value.(*ssa.Builtin); ok && bi.Name() == "delete" {
-					n++
-					fld, _ := fc.mapFieldOf(mem, x.Call.Args[0])
-					d := paramDeps(x.Call.Args[1])
-					r.Check("R12e", mem.Name+".Delete removes the directory entry only", instrPos(in), fld == df && d[f.Params[1].Name()] && d[f.Params[2].Name()],
-						"delete on "+fld+": must remove exactly the (dir,fname) directory entry; contents stay readable through open descriptors and other links")
-				}
-			}
-		})
-		if n == 0 {
-			r.Fail("R12e", mem.Name+".Delete removes the directory entry only", f.Pos(), "no delete of a directory entry", "")
-		}
-	}
-}
-
 // ---------------------------------------------------------------------------
 // C13
 
@@ -660,208 +354,6 @@ func declareC13Rules(r *Report) {
 	r.Rule("R13d", "staging path: the path opened and the rename source are the same value; source and destination use the same root descriptor; the destination is path.Join(dir, fname)", 3)
 	r.Rule("R13e", "in-memory AtomicCreate installs a private copy (make(len(data)) + copy) under a fresh inode from the allocator and points (dir, fname) at it, all inside one critical section", 4)
 	r.Rule("R13f", "staging path is unique per call (fresh component or O_EXCL), so concurrent calls for the same name cannot write through one shared temporary file", 1)
-}
-
-func (fc *fsCtx) ruleAtomicCreateDir(r *Report, dir *fsImpl, full bool) {
-	p := fc.p
-	f := dir.Methods["AtomicCreate"]
-	if f == nil {
-		r.Anchor("R13a", dir.Name+".AtomicCreate")
-		return
-	}
-	r.Func(FuncName(f))
-	if len(f.Params) != 4 {
-		r.Unknown("R13a", "AtomicCreate signature", f.Pos(), "unexpected parameters")
-		return
-	}
-	dirP, nameP, dataP := f.Params[1], f.Params[2], f.Params[3]
-	var open, fsync, rename *ssa.Call
-	var writes []*ssa.Call
-	var others []string
-	p.instrs(f, func(b *ssa.BasicBlock, i int, in ssa.Instruction) {
-		c, name, ok := unixCall(in)
-		if !ok {
-			return
-		}
-		switch name {
-		case "Openat":
-			open = c
-		case "Write":
-			writes = append(writes, c)
-		case "Fsync":
-			fsync = c
-		case "Renameat":
-			rename = c
-		case "Ftruncate":
-		default:
-			others = append(others, name)
-		}
-	})
-	if open == nil || fsync == nil || rename == nil || len(writes) == 0 {
-		r.Fail("R13a", dir.Name+".AtomicCreate protocol calls", f.Pos(),
-			fmt.Sprintf("protocol needs openat, write, fsync and renameat; found openat=%v writes=%d fsync=%v renameat=%v", open != nil, len(writes), fsync != nil, rename != nil), "")
-		return
-	}
-	fdKey := sk(open) + "#0"
-	if full {
-		r.Check("R13a", dir.Name+".AtomicCreate no other syscalls", f.Pos(), len(others) == 0, "unexpected system calls in the protocol: "+strings.Join(others, ","))
-		// order by dominance
-		for _, w := range writes {
-			r.Check("R13a", dir.Name+".AtomicCreate open ≺ write", instrPos(w), dominatesInstr(open, w) && sk(w.Call.Args[0]) == fdKey, "write must follow the open and go to the staging descriptor")
-			// write must not be reachable after fsync
-			r.Check("R13a", dir.Name+".AtomicCreate write ≺ fsync", instrPos(w), !reachesInstr(fsync, w), "a write is reachable after fsync: data written after the flush is not durable when the name becomes visible")
-		}
-		r.Check("R13a", dir.Name+".AtomicCreate fsync target", instrPos(fsync), sk(fsync.Call.Args[0]) == fdKey, "fsync must flush the staging descriptor")
-		r.Check("R13a", dir.Name+".AtomicCreate fsync ≺ rename", instrPos(rename), dominatesInstr(fsync, rename), "rename is reachable without a preceding fsync: the name can become visible before the data is durable")
-		// every normal return passes through rename
-		paths, okp := p.enumPaths(f, 1, 20000)
-		bad := ""
-		if !okp {
-			bad = "too many paths"
-		}
-		for _, pt := range paths {
-			if _, isRet := pt.endsInReturn(); !isRet {
-				continue
-			}
-			if !pathHas(pt, rename) || !pathHas(pt, fsync) {
-				bad = "a normal return is reachable without fsync+rename: " + pt.String()
-			}
-		}
-		r.Check("R13a", dir.Name+".AtomicCreate returns only after rename", f.Pos(), bad == "", bad)
-		// error discipline; deferred close accepted only because fsync dominates every normal return through rename
-		p.syscallDiscipline(r, "R13a", dir.Name+".AtomicCreate", f, countSpec{expected: func(c *ssa.Call, name string) []string { return nil }},
-			func(name string) bool { return name == "Close" && bad == "" && dominatesInstr(fsync, rename) })
-		// R13b write-all
-		okAll, why := false, ""
-		rm := p.Rels(f)
-		rsF := p.RelsAt(rm, fsync)
-		for _, w := range writes {
-			buf := w.Call.Args[1]
-			var cnt ssa.Value
-			for _, rf := range refs(w) {
-				if ex, ok := rf.(*ssa.Extract); ok && ex.Index == 0 {
-					cnt = ex
-				}
-			}
-			if cnt == nil {
-				why = "the write count is discarded"
-				continue
-			}
-			if ph, ok := buf.(*ssa.Phi); ok && len(ph.Edges) == 2 {
-				init, adv := false, false
-				for _, e := range ph.Edges {
-					if e == ssa.Value(dataP) {
-						init = true
-					}
-					if sl, ok := e.(*ssa.Slice); ok && sl.X == ssa.Value(ph) && sl.Low == cnt && sl.High == nil {
-						adv = true
-					}
-				}
-				k := "len(" + sk(ph) + ")"
-				exit := rsF[k+" <= 0"] || rsF[eqRel(k, "0")]
-				if init && adv && exit {
-					okAll = true
-				} else {
-					why = fmt.Sprintf("write loop: starts at data=%v, advances by count=%v, exits only when empty=%v (facts at fsync: %v)", init, adv, exit, relList(rsF))
-				}
-			} else if buf == ssa.Value(dataP) && eqHolds(rsF, sk(cnt), "len("+dataP.Name()+")") {
-				okAll = true
-			} else if why == "" {
-				why = "write buffer is " + sk(buf) + " and the count is not proven equal to len(data) before fsync"
-			}
-		}
-		r.Check("R13b", dir.Name+".AtomicCreate writes all of data", instrPos(writes[0]), okAll, why)
-	}
-	// R13c
-	flags, okc := constInt(open.Call.Args[2])
-	oc, _ := unixConst(p, "O_CREAT")
-	ot, _ := unixConst(p, "O_TRUNC")
-	ox, _ := unixConst(p, "O_EXCL")
-	acc, _ := unixConst(p, "O_ACCMODE")
-	ow, _ := unixConst(p, "O_WRONLY")
-	orw, _ := unixConst(p, "O_RDWR")
-	empty := okc && flags&oc != 0 && (flags&ot != 0 || flags&ox != 0) && (flags&acc == ow || flags&acc == orw)
-	if !empty {
-		p.instrs(f, func(b *ssa.BasicBlock, i int, in ssa.Instruction) {
-			if c, name, ok := unixCall(in); ok && name == "Ftruncate" && sk(c.Call.Args[0]) == fdKey {
-				if z, ok := constInt(c.Call.Args[1]); ok && z == 0 {
-					all := true
-					for _, w := range writes {
-						if !dominatesInstr(c, w) {
-							all = false
-						}
-					}
-					if all && okc && flags&oc != 0 {
-						empty = true
-					}
-				}
-			}
-		})
-	}
-	r.Check("R13c", dir.Name+".AtomicCreate staging starts empty", instrPos(open), empty,
-		fmt.Sprintf("open flags=%#x: without O_TRUNC/O_EXCL (or ftruncate(fd,0) before the first write) bytes left in the staging file by an earlier interrupted call survive past the new data", flags))
-	if !full {
-		return
-	}
-	// R13d
-	stage := open.Call.Args[1]
-	r.Check("R13d", dir.Name+".AtomicCreate rename source is the staging path", instrPos(rename), rename.Call.Args[1] == stage || sk(rename.Call.Args[1]) == sk(stage),
-		"renameat source "+sk(rename.Call.Args[1])+" differs from the opened path "+sk(stage))
-	deps := paramDeps(stage)
-	r.Check("R13d", dir.Name+".AtomicCreate one root descriptor", instrPos(rename),
-		sk(open.Call.Args[0]) == sk(rename.Call.Args[0]) && sk(rename.Call.Args[0]) == sk(rename.Call.Args[2]),
-		"open and both sides of the rename must be relative to the same root descriptor")
-	wantDst := "path.Join([" + dirP.Name() + "," + nameP.Name() + "])"
-	r.Check("R13d", dir.Name+".AtomicCreate destination", instrPos(rename), sk(rename.Call.Args[3]) == wantDst,
-		"destination is "+sk(rename.Call.Args[3])+", must be "+wantDst)
-	// R13f uniqueness
-	uniq := okc && flags&ox != 0
-	for d := range deps {
-		if d != dirP.Name() && d != nameP.Name() && d != f.Params[0].Name() {
-			uniq = true
-		}
-	}
-	if !uniq {
-		// any call result (pid, counter, random) feeding the path
-		var walk func(v ssa.Value, seen map[ssa.Value]bool)
-		walk = func(v ssa.Value, seen map[ssa.Value]bool) {
-			if v == nil || seen[v] {
-				return
-			}
-			seen[v] = true
-			if c, ok := v.(*ssa.Call); ok {
-				n := calleeName(c)
-				// sources of a per-call fresh component (a pid or a formatted name alone is not one)
-				for _, pre := range []string{"sync/atomic.Add", "(*sync/atomic.Uint64).Add", "(*sync/atomic.Int64).Add", "(*sync/atomic.Uint32).Add", "(*sync/atomic.Int32).Add", "math/rand.", "math/rand/v2.", "crypto/rand.", "time.Now"} {
-					if strings.HasPrefix(n, pre) {
-						uniq = true
-					}
-				}
-			}
-			if in, ok := v.(ssa.Instruction); ok {
-				var ops []*ssa.Value
-				for _, o := range in.Operands(ops) {
-					if o != nil {
-						walk(*o, seen)
-					}
-				}
-			}
-			if a, ok := v.(*ssa.Alloc); ok {
-				for _, rf := range refs(a) {
-					if ia, ok := rf.(*ssa.IndexAddr); ok {
-						for _, r2 := range refs(ia) {
-							if st, ok := r2.(*ssa.Store); ok {
-								walk(st.Val, seen)
-							}
-						}
-					}
-				}
-			}
-		}
-		walk(stage, map[ssa.Value]bool{})
-	}
-	r.Check("R13f", dir.Name+".AtomicCreate staging path unique per call", instrPos(open), uniq,
-		fmt.Sprintf("the staging path %s depends only on %v and is opened without O_EXCL: concurrent calls that agree on those (the same name; with fname alone also the same name in different directories) write through one shared temporary file", sk(stage), sortedKeys(deps)))
 }
 
 // reachesInstr: is b reachable from a (strictly after a)?
@@ -892,62 +384,4 @@ func reachesInstr(a, b ssa.Instruction) bool {
 		q = append(q, x.Succs...)
 	}
 	return false
-}
-
-func (fc *fsCtx) ruleAtomicCreateMem(r *Report, mem *fsImpl) {
-	p := fc.p
-	f := mem.Methods["AtomicCreate"]
-	if f == nil {
-		r.Anchor("R13e", mem.Name+".AtomicCreate")
-		return
-	}
-	r.Func(FuncName(f))
-	alloc := fc.allocator(mem)
-	cf, df := fc.contentField(mem), fc.direntField(mem)
-	dataP := f.Params[len(f.Params)-1]
-	nC, nD := 0, 0
-	var inodeKey ssa.Value
-	p.instrs(f, func(b *ssa.BasicBlock, i int, in ssa.Instruction) {
-		mu, ok := in.(*ssa.MapUpdate)
-		if !ok {
-			return
-		}
-		fld, _ := fc.mapFieldOf(mem, mu.Map)
-		switch fld {
-		case cf:
-			nC++
-			fresh := false
-			if c, ok := mu.Key.(*ssa.Call); ok && alloc != nil && calleeOf(&c.Call) == alloc {
-				fresh = true
-				inodeKey = mu.Key
-			}
-			r.Check("R13e", mem.Name+".AtomicCreate fresh inode", instrPos(in), fresh,
-				"contents are stored under key "+sk(mu.Key)+": must be a new inode from the allocator, otherwise readers holding the old file see it change (torn) and hard links change with it")
-			// value = make(len(data)) filled by copy(p, data)
-			ms, isMake := mu.Value.(*ssa.MakeSlice)
-			okCopy := false
-			if isMake {
-				lenOK := sk(ms.Len) == "len("+dataP.Name()+")"
-				for _, rf := range refs(ms) {
-					if c, ok := rf.(*ssa.Call); ok {
-						if bi, ok := c.Call.Value.(*ssa.Builtin); ok && bi.Name() == "copy" && c.Call.Args[0] == ssa.Value(ms) && c.Call.Args[1] == ssa.Value(dataP) && dominatesInstr(c, in) {
-							okCopy = lenOK
-						}
-					}
-				}
-			}
-			r.Check("R13e", mem.Name+".AtomicCreate installs a complete private copy", instrPos(in), okCopy,
-				"stored value "+sk(mu.Value)+" must be make([]byte, len(data)) filled by copy(p, data) before it is installed")
-		case df:
-			nD++
-			d := paramDeps(mu.Key)
-			r.Check("R13e", mem.Name+".AtomicCreate points (dir,fname) at the new inode", instrPos(in),
-				d[f.Params[1].Name()] && d[f.Params[2].Name()] && inodeKey != nil && mu.Value == inodeKey,
-				"the directory entry for (dir, fname) must be set to the freshly allocated inode")
-		default:
-			r.Fail("R13e", mem.Name+".AtomicCreate updates "+fld, instrPos(in), "unexpected map update in AtomicCreate", "")
-		}
-	})
-	r.Check("R13e", mem.Name+".AtomicCreate one contents and one directory update", f.Pos(), nC == 1 && nD == 1,
-		fmt.Sprintf("found %d contents updates and %d directory updates", nC, nD))
 }
